@@ -10,7 +10,12 @@ Open Scope Z_scope.
 
 Definition dec_plan (x : sx) : option plan :=
   match x with
-  | SL [d; a] => do d' <- as_list as_nat d; do a' <- as_nat a; Some {| pl_during := d'; pl_after := a' |}
+  | SL [d; a] =>
+      do d' <- as_list as_nat d; do a' <- as_nat a;
+      Some {| pl_during := d'; pl_after := a'; pl_rduring := []; pl_rafter := O |}
+  | SL [d; a; rd; ra] =>
+      do d' <- as_list as_nat d; do a' <- as_nat a; do rd' <- as_list as_nat rd; do ra' <- as_nat ra;
+      Some {| pl_during := d'; pl_after := a'; pl_rduring := rd'; pl_rafter := ra' |}
   | _ => None
   end.
 
@@ -21,7 +26,7 @@ Definition sres_sx (r : sres) : sx :=
 Fixpoint zip_plans (cs : list conn) (pls : list plan) : list (conn * plan) :=
   match cs with
   | [] => []
-  | c :: cs' => (c, hd {| pl_during := []; pl_after := O |} pls) :: zip_plans cs' (tl pls)
+  | c :: cs' => (c, hd {| pl_during := []; pl_after := O; pl_rduring := []; pl_rafter := O |} pls) :: zip_plans cs' (tl pls)
   end.
 
 Definition run_gate (y plans : sx) : sx :=
